@@ -2,3 +2,7 @@ import PyndlProofs.RW
 import PyndlProofs.Dict
 import PyndlProofs.Kernel
 import PyndlProofs.Schedule
+import PyndlProofs.Laws
+import PyndlProofs.Queue
+import PyndlProofs.Partition
+import PyndlProofs.SeqSchedule
